@@ -8,7 +8,10 @@
      - a table id that itself ends in "+" may carry a further "+"  ("GPL-2.0+" is a known id, so core = "GPL-2.0+", plus = "+":
        license-id "+", within SPDX proper)
    LicIds.strict_simple below is the reading of SPDX proper, and lic_canon_vs_strict says exactly where the two differ:
-   only in the "+" on a LicenseRef. *)
+   only in the "+" on a LicenseRef.  (Relative to the simple-expression / license-ref forms WITHOUT a document prefix: Annex D also has
+   license-ref = ["DocumentRef-" idstring ":"] "LicenseRef-" idstring and, since SPDX 3, addition-ref = "AdditionRef-" idstring after
+   WITH; the code rejects both forms - ":" is no LicenseRef character and no table id starts with "DocumentRef-"; "AdditionRef-x" is in
+   no exception table - and so do lic_canon / exc_canon; strict_simple below does not include them either.) *)
 From Coq Require Import List Arith NArith Bool Lia.
 Import ListNotations.
 Require Import VParse LicModel LicAuto LicSpec LicLex LicCode LicIdem.
